@@ -640,6 +640,16 @@ func (x *Exec) havocLoop(p *Path, fr *FrameState, l *Loop) {
 						continue
 					}
 					name := callee.String()
+					if ec := x.e.cs.Externs[name]; ec != nil {
+						if hasEverything(ec) {
+							all = true
+						} else {
+							for _, k := range x.modKeysOfContract(ec, cc) {
+								addKey(k, "")
+							}
+						}
+						continue
+					}
 					if m := lookupModel(name); m != nil {
 						if m.locks {
 							// lock acquisition havocs guarded state
@@ -945,10 +955,28 @@ func (x *Exec) execFrom(p *Path, b *ssa.BasicBlock, i int, k *Cont) {
 				x.errorf("path limit exceeded in %s", x.fn)
 				return
 			}
+			nc := not(c.S)
+			hasT, hasF := false, false
+			for _, a := range p.assumes {
+				if a == c.S {
+					hasT = true
+				}
+				if a == nc {
+					hasF = true
+				}
+			}
+			if hasT && !hasF {
+				x.enterBlock(p, tb, b, k)
+				return
+			}
+			if hasF && !hasT {
+				x.enterBlock(p, fb, b, k)
+				return
+			}
 			x.npaths++
 			q := p.clone(x.npaths)
 			p.assume(c.S)
-			q.assume(not(c.S))
+			q.assume(nc)
 			x.enterBlock(p, tb, b, k)
 			x.enterBlock(q, fb, b, k)
 			return
